@@ -92,6 +92,8 @@ def _vi_l1_inv(L):
     o0 = pre.obj('stream')
     o = L.obj('stream')
     acc = L.obj('acc')
+    if o0.model == 'adv':
+        return []
     return [('position', t.and_(t.le(o0.pos, o.pos), t.eq(o.pos, t.add(o0.pos, llen(acc))), t.eq(o.buf, o0.buf), t.eq(o.len, o0.len))),
             ('scan-continues', t.eq(t.app('leb_scan', t.INT, o0.buf, o0.pos, o0.len), t.app('leb_scan', t.INT, o0.buf, o.pos, o0.len))),
             ('groups-collected', lall(acc, lambda j, e: t.eq(e, t.pymod(t.select(o0.buf, t.add(o0.pos, j)), I(128)))))]
@@ -102,6 +104,8 @@ def _vi_l2_inv(L):
     o0 = pre.obj('stream')
     acc = L.obj('acc')
     n = llen(acc)
+    if o0.model == 'adv':
+        return []
     return [('partial-value', t.eq(L['num'].t, val7(o0.buf, t.sub(t.add(o0.pos, n), L.k), t.add(o0.pos, n))))]
 
 
